@@ -106,6 +106,7 @@ type G2LConfig struct {
 	Title     string               // first line of the header comment
 	Imports   []string             // Lean imports
 	Opens     []string             // Lean `open`s
+	Preamble  []string             // Lean commands after the `open`s (e.g. `variable [C]`), go2lean_own.go
 	Basic     map[string]string    // Go basic type → Lean type; defaults in g2lBasicDefault
 	Named     map[string]string    // other named Go types (qualified as pkgname.Type outside Pkg) → Lean type
 	Structs   map[string]G2LStruct // named Go structs → representation
@@ -122,6 +123,7 @@ type G2LConfig struct {
 	// method key ("pkg.Recv.Method") → Lean template of the NEW VALUE of the receiver's pointee ({0} the pointee,
 	// {1} … the arguments): the statement `x.M(a)` becomes `x := template` (go2lean_effects.go)
 	EffPrims map[string]string
+	UnitVoid bool              // a function without result returns Unit × its in-out parameters (go2lean_own.go; without it: the in-out parameters alone, go2lean_effects.go)
 	Codec    bool              // named results, `*p = v` on in-out parameters, []byte ↔ string, %0*d (go2lean_codec.go)
 	OutPrims map[string]string // call key → template of a primitive that writes through its last argument (go2lean_codec.go)
 }
@@ -432,6 +434,9 @@ func (g *g2l) zero(t types.Type) (string, error) {
 	lt, err := g.leanType(t)
 	if err != nil {
 		return "", err
+	}
+	if z, ok := g.zeroOpaque(t, lt); ok { // go2lean_own.go: opaque named types (`default`, pinned by opaqueZeros)
+		return z, nil
 	}
 	switch g2lKindOf(t) {
 	case kInt, kUint, kFloat:
@@ -777,6 +782,9 @@ func (g *g2l) emit(sorted []string) string {
 	w("\nset_option linter.unusedVariables false\n\nnamespace %s\n", cfg.Namespace)
 	for _, o := range cfg.Opens {
 		w("open %s\n", o)
+	}
+	for _, p := range cfg.Preamble {
+		w("%s\n", p)
 	}
 	// structs
 	w("\n/-! ## Go struct declarations (facts) and their Lean representation -/\n\n")
